@@ -4,7 +4,7 @@ From Coq Require Import Strings.String Strings.Byte.
 From Coq Require Import List Arith NArith ZArith Bool.
 From PV Require Import Base.Bytes Base.Outcome Base.KV Aol.Model Bank.Model Did.Model Pnft.Model.
 From PV Require Import Chain.Model Chain.Run Chain.FeeProps Chain.SchemaProps Chain.Example.
-From PV Require Generated.GenSchema.
+From PV Require Generated.GenSchema Generated.GenApp.
 Import ListNotations.
 
 (** after a transaction made only of AOL / DID / PNFT messages (directly or inside MsgExec) the bank is the bank
@@ -72,3 +72,9 @@ Example C15_nonvacuous :
   balance (c_bank (fst (deliver_tx (env_at toy_oracles 5%Z) fee_chain fee_tx))) [xff] (b "umed") = 7%N /\
   c_aol (fst (deliver_tx (env_at toy_oracles 5%Z) fee_chain fee_tx)) = [].
 Proof. vm_compute. repeat split; reflexivity. Qed.
+
+(** source tie (T1): the decorators of app/ante.go, in order, are the ones the model's [ante] abstracts (fee deduction
+    from the payer, signature verification for the required signers, sequence increment) *)
+Theorem C15_ante_chain_as_modelled : GenApp.ante_decorators = modelled_ante_chain.
+Proof. exact ante_chain_as_modelled. Qed.
+Print Assumptions C15_ante_chain_as_modelled.
